@@ -24,6 +24,27 @@ def _mut(events, pred, fn):
     return ev, j + 1
 
 
+
+def _holder(e):
+    """a failed Repair ('notenough') in which some file f holds the whole content of another file g whose own
+    name does not: returns f, or None"""
+    if e.get("ev") != "op" or e["op"] not in ("repair", "repairdc") or e["res"]["err"] != "notenough":
+        return None
+    for f in e["names"]:
+        for g in e["names"]:
+            if g != f and e["pre"][f] == e["prot"][g] and e["pre"][g] != e["prot"][g] and \
+               not any(h not in (f, g) and e["pre"][h] == e["prot"][g] for h in e["names"]):
+                return f
+    return None
+
+
+def _wipe_holder(e):
+    f = _holder(e)
+    e["post"][f] = e["prot"][f]        # f regains its original: the only copy of g's slices is gone
+    e["res"]["repaired"] = [f]
+    e["writes"] = [f]
+
+
 # module -> list of (name, predicate selecting the event, corruption, clause that must reject it)
 CORRUPTIONS = {
     "Trace_C08": [
@@ -37,6 +58,7 @@ CORRUPTIONS = {
         ("a bystander changed", lambda e: e.get("ev") == "op", lambda e: e.__setitem__("outside", ["notes.txt"]), "C02.nothing_else_changed"),
         ("success without restoration", lambda e: e.get("ev") == "op" and e["op"] != "verify" and e["res"]["err"] == "" and e["res"]["repaired"],
          lambda e: e["post"].__setitem__(e["res"]["repaired"][0], [9, 9]), "C01.ok_implies_restored"),
+        ("a failed Repair restores a file that held the only copy of another file's slices", lambda e: _holder(e) is not None, _wipe_holder, "C14.failure_loses_no_slice"),
     ],
     "Trace_ArchiveBig": [
         ("restored flag off", lambda e: e["op"] in ("repair", "repairdc") and e["res"]["err"] == "", lambda e: e.__setitem__("restored", False), "C01.ok_implies_restored"),
